@@ -296,6 +296,18 @@ def gen_calltables(repo):
     L.append('/-- `FunctionCall.args_without_self`, translated: the allowed number of decorator lines, the comparison, the strip condition -/')
     L.append(f'def maxAllowed (isPedantic : Bool) : Nat := if {max_allowed[0]} then {max_allowed[1]} else {max_allowed[2]}')
     L.append(f'def usesMultiple (numOfDecorators : Nat) (isPedantic : Bool) : Bool := decide (numOfDecorators {multi_op} maxAllowed isPedantic)')
+    # the context of a call: `self._context = {**context, **func.globals}` in FunctionCall.__init__ (caller's names complemented - and
+    # overridden - by those of the module that defines the function); the generator wrapper receives it
+    init = find_func(fc, '__init__', 'FunctionCall')
+    ctx_txt = [ast.unparse(s.value) for s in init.body if isinstance(s, ast.Assign) and ast.unparse(s.targets[0]) == 'self._context']
+    ctx_merges = ctx_txt == ['{**context, **func.globals}']
+    glob = find_func(df, 'globals', 'DecoratedFunction')
+    glob_ok = glob is not None and ast.unparse(single_return(glob, 'globals')) == "getattr(inspect.unwrap(self._func), '__globals__', {})"
+    gw_calls = [n for n in ast.walk(fc) if isinstance(n, ast.Call) and ast.unparse(n.func) == 'GeneratorWrapper']
+    gw_ctx = bool(gw_calls) and all(any(k.arg == 'context' and ast.unparse(k.value) == 'self._context' for k in c.keywords) for c in gw_calls)
+    L.append('/-- the context of a call is the caller\'s names complemented (and overridden) by those of the module that defines the function -/')
+    L.append(f'def callContextIncludesFunctionGlobals : Bool := {lean_bool(ctx_merges and glob_ok)}')
+    L.append(f'def generatorWrapperReceivesContext : Bool := {lean_bool(gw_ctx)}')
     L.append('/-- is_instance_method answers False for a bound method (inspect.ismethod), whatever getfullargspec lists -/')
     L.append(f'def instanceMethodExcludesBound : Bool := {lean_bool(excludes_bound)}')
     L.append(f'def stripsFirst (isInstanceMethod isStaticMethod usesMultipleDecorators : Bool) : Bool := {strip_cond}')
